@@ -3,7 +3,7 @@
     (Coq 8.16 writes extracted files to the current directory). *)
 From Coq Require Import Extraction ExtrOcamlBasic.
 From Coq Require Import List ZArith QArith Qcanon.
-From Inovesa Require Import Base.FieldKit Base.Float32 Gen.Gen_Coeffs Model.Kick Model.Rotation Model.RotationGen.
+From Inovesa Require Import Base.FieldKit Base.Float32 Gen.Gen_Coeffs Model.Kick Model.Rotation.
 
 Extraction Language OCaml.
 
@@ -12,5 +12,4 @@ Definition coeffsQ (it : Z) (f : Qc) : list Qc := coeffs (K:=QcF) it f.
 Extraction "model_kick.ml"
   Q2Qc this rnd32 Qctrunc Qcfrac
   coeffsQ kick_y_list kick_x_list table_list defined_list
-  rot_table_list rot_defined_list rot_apply_list
-  rot_table_rect rot_defined_rect rot_apply_rect rg_table_list rg_apply_list rg_members.
+  rot_table_list rot_defined_list rot_apply_list.
